@@ -157,6 +157,9 @@ CATALOGUE = {
         S("one+chain2", "a", "b", "c<b"),
         S("one+chain3", "a", "b", "c<b", "d<c"),
         S("chain2+chain2", "a", "b", "c<a", "d<b"),
+        # two independent chains of three whose nodes interleave in the sorted order (a, e, b, f, c, d): when a fails while
+        # e and f are done, the walk of get_runnable_tasks stops at c (its predecessor b was never started) before reaching d
+        S("chain3+chain3", "a", "e", "b<a", "f<e", "c<b", "d<f"),
         S("diamond+one", "a", "b<a", "c<a", "d<b,c", "e"),
         S("fanin3", "a", "b", "c", "d<a,b,c"),
         S("split2", "a*2"),
